@@ -25,6 +25,8 @@ GUARD_STREAM = "not isinstance(result, Stream)"
 GUARD_HEADER = "info.header_type is not None and result.header is None"
 INIT_CALL = "getattr(self._impl, info.name)(**kwargs)"
 TRANSPORT = {"pa.ArrowInvalid", "OSError", "EOFError"}
+# draining with or without releasing shm pointer batches met on the way: the same thing at frame level
+DRAIN_CALLS = ("_drain_stream(reader)", "_drain_stream(reader, shm=shm)")
 
 
 def _func(tree: ast.AST, name: str, site: str) -> ast.FunctionDef:
@@ -112,7 +114,7 @@ def unary_handlers(repo: Path) -> list[tuple[list[str], bool]]:
         rest = h.body[:-1]
         if rest == []:
             drains = False
-        elif len(rest) == 1 and isinstance(rest[0], ast.Expr) and ast.unparse(rest[0].value) == "_drain_stream(reader)":
+        elif len(rest) == 1 and isinstance(rest[0], ast.Expr) and ast.unparse(rest[0].value) in DRAIN_CALLS:
             drains = True
         else:
             raise TranslationBroken(site, f"handler at line {h.lineno}: unexpected body " + ast.unparse(h)[:100])
@@ -139,7 +141,30 @@ def unary_drains_any(handlers: list[tuple[list[str], bool]], site: str = "_read_
     return False
 
 
+def drain_reads_to_eos(repo: Path) -> None:
+    """``_drain_stream`` = ``while True:`` read the next batch; ``StopIteration`` -> return.  Whatever else the loop body
+    does with a batch (releasing a shm region) must not leave the loop: no break / return / raise outside that handler."""
+    src = repo / "vgi_rpc" / "rpc" / "_wire.py"
+    site = f"{src}:_drain_stream"
+    fn = _func(ast.parse(src.read_text()), "_drain_stream", site)
+    body = [st for st in fn.body if not (isinstance(st, ast.Expr) and isinstance(st.value, ast.Constant))]
+    if len(body) != 1 or not isinstance(body[0], ast.While) or ast.unparse(body[0].test) != "True" or body[0].orelse:
+        raise TranslationBroken(site, "body is not a single `while True:` loop")
+    loop = body[0].body
+    first = loop[0] if loop else None
+    if not (isinstance(first, ast.Try) and len(first.handlers) == 1 and _names(first.handlers[0], site) == ["StopIteration"]
+            and len(first.handlers[0].body) == 1 and isinstance(first.handlers[0].body[0], ast.Return) and first.handlers[0].body[0].value is None
+            and not first.finalbody and not first.orelse and len(first.body) == 1
+            and ".read_next_batch" in ast.unparse(first.body[0]) and "reader." in ast.unparse(first.body[0])):
+        raise TranslationBroken(site, "loop does not start with `try: reader.read_next_batch...() except StopIteration: return`")
+    for st in loop[1:]:
+        for n in ast.walk(st):
+            if isinstance(n, (ast.Break, ast.Return, ast.Raise, ast.Continue, ast.Try, ast.While, ast.For)):
+                raise TranslationBroken(site, "control flow after the read inside the drain loop: " + ast.unparse(st)[:80])
+
+
 def variant_module(repo: Path) -> str:
+    drain_reads_to_eos(repo)
     checks = serve_stream_checks(repo)
     hs = unary_handlers(repo)
     drains = unary_drains_any(hs)
